@@ -291,7 +291,22 @@ func (m *c19) open(be int, data []byte, plan faultio.Plan) (*parse.BinaryReader,
 		r, err = parse.NewBinaryReaderReader(strings.NewReader(string(data)), int64(ctx.T.Pick(-1, len(data))))
 	case beStdSection:
 		big := append(append([]byte("HEAD"), data...), "TAIL"...)
-		r, err = parse.NewBinaryReaderReader(io.NewSectionReader(bytes.NewReader(big), 4, int64(len(data))), int64(ctx.T.Pick(-1, len(data))))
+		var under io.ReaderAt = bytes.NewReader(big)
+		if k := ctx.T.Draw(3); k > 0 {
+			// a reader stacked on a section of another BinaryReader (which is an io.ReaderAt): an
+			// embedded table parsed through a reader of its own
+			var parent *parse.BinaryReader
+			if k == 1 {
+				parent, _ = parse.NewBinaryReaderReader(bytes.NewReader(big), -1) // seeker-backed parent
+			} else {
+				parent = parse.NewBinaryReaderBytes(big)
+			}
+			if parent != nil {
+				under = parent
+				ctx.Count("probe_stacked_reader")
+			}
+		}
+		r, err = parse.NewBinaryReaderReader(io.NewSectionReader(under, 4, int64(len(data))), int64(ctx.T.Pick(-1, len(data))))
 	case beOSFileAsReader:
 		var path string
 		path, err = c19TempFile(data)
